@@ -1,6 +1,2415 @@
-//! C13 — not built yet.
-use crate::report::{Ctx, Reporter};
+//! C13 — content coding is lossless, correctly labelled and correctly negotiated.
+//!
+//! Response side.  A real `App` wrapped in `middleware::Compress` serves a handler whose answer is a
+//! *program* (status, Content-Type, pre-set Content-Encoding, body kind, data, chunking, Pending
+//! points, error point).  The response body is pulled chunk by chunk through `MessageBody::poll_next`
+//! (raw, still encoded), then decoded with the codec libraries directly (flate2 / brotli / zstd).
+//! For a subset the same app is served through the real HTTP/1 stack (`HttpService`) on a scripted
+//! socket and the wire bytes are parsed by `refmodel::h1_resp`.
+//!
+//! Oracle clauses (violation classes):
+//! * `lossless/decode-error`, `lossless/mismatch`, `lossless/trailing-bytes` — decoding the body
+//!   with the coding named in `Content-Encoding` gives exactly the handler's bytes;
+//! * `label/unknown-coding`, `label/changed` — the label is a coding the middleware supports / the
+//!   handler's own label is left alone;
+//! * `negotiate/coding-not-permitted`, `negotiate/identity-excluded`, `negotiate/406-*` — the coding
+//!   used is permitted by `refmodel::negotiate` (RFC 7231 §5.3.4); a 406 only when neither identity
+//!   nor an explicitly listed supported coding is acceptable (406 where only `*` would have allowed
+//!   a coding is tolerated and counted);
+//! * `passthrough/*` — already-encoded, 101, 204, 206 and empty responses are byte-identical and
+//!   carry exactly the handler's label;
+//! * `length/declared-size-mismatch`, `length/stale-content-length`, `length/cl-and-chunked`,
+//!   `wire/*` — the declared body size / the `content-length` on the wire equals the (encoded)
+//!   body length;
+//! * `terminates/step-bound`, `terminates/output-unbounded` — the body stream ends within
+//!   2·(input chunks)+16 output chunks; `body-error/swallowed` — a failing handler body does not end
+//!   as a clean stream;
+//! * `terminates/polled-after-end` — the handler body is not polled again after it returned `None`;
+//! * `panic`.
+//! Request side: compressed bodies (library encoders, several levels) are fed under any chunking to
+//! `actix_http::encoding::Decoder` directly and through `web::Bytes` / `web::Payload`+`Decompress`;
+//! `request/mismatch`, `request/rejected-valid`, `request/short-success` (truncated input delivered
+//! as a clean, shorter body), `request/corrupt-accepted`, `request/source-error-swallowed`.
+//!
+//! The blocking pool (`spawn_blocking` for chunks ≥ 1 KiB / 2 KiB) makes virtual-time stall
+//! detection unsound, so the monitor runs on a real-time single-threaded actix System; a case that
+//! does not finish within the wall-clock watchdog is INCONCLUSIVE, never a violation.
 
-pub fn run(_ctx: &Ctx, rep: &mut Reporter) {
-    rep.inconclusive("C13 monitor not built");
+use std::{
+    cell::{Cell, RefCell},
+    future::{poll_fn, Future},
+    io::{self, Read, Write},
+    panic::AssertUnwindSafe,
+    pin::Pin,
+    rc::Rc,
+    sync::{
+        atomic::{AtomicBool, AtomicU64, Ordering::SeqCst},
+        Arc,
+    },
+    task::{Context, Poll},
+    time::{Duration, Instant},
+};
+
+use actix_http::{
+    encoding::Decoder, error::PayloadError, header::HeaderMap, ContentEncoding, HttpService, KeepAlive, Payload,
+    Protocol, Request,
+};
+use actix_service::{map_config, Service, ServiceFactory};
+use actix_web::{
+    body::{BodySize, MessageBody, SizedStream},
+    dev::{AppConfig, ServiceResponse},
+    http::{
+        header::{self, HeaderValue},
+        StatusCode,
+    },
+    middleware::Compress,
+    test, web, App, HttpRequest, HttpResponse,
+};
+use bytes::Bytes;
+use futures_core::Stream;
+use futures_util::{FutureExt, StreamExt};
+use serde::{Deserialize, Serialize};
+use serde_json::{json, Value};
+
+use crate::{
+    refmodel::{
+        h1_resp::{parse_responses, RespFraming},
+        negotiate::{self, Verdict},
+    },
+    report::{panic_site, Ctx, Reporter},
+    util::{esc, esc_short, unesc, Rng},
+    world::io::script_io,
+};
+
+// ------------------------------------------------------------------------------------------------
+// plumbing
+// ------------------------------------------------------------------------------------------------
+
+#[cfg(feature = "ffi")]
+const CODINGS: &[&str] = &["gzip", "deflate", "br", "zstd"];
+#[cfg(not(feature = "ffi"))]
+const CODINGS: &[&str] = &["gzip", "deflate", "br"];
+
+#[cfg(feature = "ffi")]
+const SUPPORTED: &[&str] = &["identity", "br", "gzip", "deflate", "zstd"];
+#[cfg(not(feature = "ffi"))]
+const SUPPORTED: &[&str] = &["identity", "br", "gzip", "deflate"];
+
+/// wall-clock watchdog per case (generous: a 1 MiB body takes a few 10 ms)
+const WATCHDOG: Duration = Duration::from_secs(90);
+
+struct Fail {
+    class: &'static str,
+    sig: String,
+    detail: String,
+}
+
+fn fail(class: &'static str, sig: String, detail: String) -> Fail {
+    Fail { class, sig, detail }
+}
+
+fn panic_text(p: Box<dyn std::any::Any + Send>) -> String {
+    // the hook has stored "msg @ file:line"; resume_unwind does not run the hook again
+    match crate::report::guard(move || std::panic::resume_unwind(p)) {
+        Err(m) => m,
+        Ok(()) => "panic".into(),
+    }
+}
+
+fn size_class(n: usize) -> String {
+    match n {
+        0 | 1 | 1023 | 1024 | 1025 | 2047 | 2048 | 2049 | 2050 => n.to_string(),
+        2..=1022 => "2-1022".into(),
+        1026..=2046 => "1026-2046".into(),
+        2051..=65535 => "2051-64K".into(),
+        65536 => "64K".into(),
+        65537..=1048575 => "64K-1M".into(),
+        _ => "1M+".into(),
+    }
+}
+
+fn real_time_system<T>(f: impl Future<Output = T>) -> T {
+    let sys = actix_rt::System::with_tokio_rt(|| {
+        tokio::runtime::Builder::new_current_thread().enable_all().build().unwrap()
+    });
+    sys.block_on(f)
+}
+
+// ------------------------------------------------------------------------------------------------
+// data, chunk sources
+// ------------------------------------------------------------------------------------------------
+
+#[derive(Serialize, Deserialize, Clone, Debug, PartialEq)]
+struct DataSpec {
+    /// text | random | zeros | mixed
+    kind: String,
+    len: usize,
+    seed: u64,
+}
+
+const WORDS: &[&str] = &[
+    "the ", "quick ", "brown ", "fox ", "<div class=\"row\">", "</div>\n", "{\"id\":", "\"name\":\"", "\"},", "lorem ", "ipsum ",
+    "dolor ", "sit ", "amet, ", "0123456789", "\r\n", "content-encoding ", "aaaaaaaaaaaaaaaa", "\u{e9}\u{e8}", "==",
+];
+
+fn make_data(d: &DataSpec) -> Vec<u8> {
+    let mut r = Rng::derive(d.seed, 0xda7a, d.len as u64);
+    let mut v = Vec::with_capacity(d.len + 64);
+    match d.kind.as_str() {
+        "random" => {
+            while v.len() < d.len {
+                v.extend_from_slice(&r.next().to_le_bytes());
+            }
+        }
+        "zeros" => v.resize(d.len, 0),
+        "mixed" => {
+            while v.len() < d.len {
+                let run = r.range(1, 3000);
+                if r.chance(1, 2) {
+                    for _ in 0..run / 8 + 1 {
+                        v.extend_from_slice(&r.next().to_le_bytes());
+                    }
+                } else {
+                    let end = v.len() + run;
+                    while v.len() < end {
+                        v.extend_from_slice(r.pick(WORDS).as_bytes());
+                    }
+                }
+            }
+        }
+        _ => {
+            while v.len() < d.len {
+                v.extend_from_slice(r.pick(WORDS).as_bytes());
+            }
+        }
+    }
+    v.truncate(d.len);
+    v
+}
+
+#[derive(Serialize, Deserialize, Clone, Debug, PartialEq)]
+struct ChunkSpec {
+    /// chunk i has `pattern[i % len]` bytes; 0 is an empty chunk.  The stream ends when the data is
+    /// exhausted (an all-zero pattern is treated as `[1]`).
+    pattern: Vec<usize>,
+    /// 0: never; k: return `Pending` (self-woken) before every k-th chunk
+    pend_every: usize,
+    /// fail with an I/O error instead of yielding chunk number k (0-based)
+    err_at: Option<usize>,
+}
+
+impl ChunkSpec {
+    fn one() -> Self {
+        ChunkSpec { pattern: vec![usize::MAX / 2], pend_every: 0, err_at: None }
+    }
+    fn fixed(n: usize) -> Self {
+        ChunkSpec { pattern: vec![n], pend_every: 0, err_at: None }
+    }
+    fn pat(p: &[usize]) -> Self {
+        ChunkSpec { pattern: p.to_vec(), pend_every: 0, err_at: None }
+    }
+    fn n_chunks(&self, len: usize) -> usize {
+        // number of chunks the source will emit for `len` bytes (bounded computation)
+        let mut pos = 0usize;
+        let mut i = 0usize;
+        let pat = self.norm();
+        while pos < len && i < 10_000_000 {
+            pos = pos.saturating_add(pat[i % pat.len()]);
+            i += 1;
+        }
+        if len == 0 && pat[0] == 0 {
+            1
+        } else {
+            i
+        }
+    }
+    fn norm(&self) -> Vec<usize> {
+        if self.pattern.iter().all(|&x| x == 0) {
+            vec![1]
+        } else {
+            self.pattern.clone()
+        }
+    }
+}
+
+#[derive(Default, Debug)]
+struct SrcLog {
+    chunks: usize,
+    empties: usize,
+    small: usize,
+    /// chunks ≥ 1024 bytes (blocking-pool path of the encoder)
+    big: usize,
+    /// chunks ≥ 2049 bytes (blocking-pool path of the decoder)
+    huge: usize,
+    pendings: usize,
+    ended: bool,
+    errored: bool,
+    polled_after_end: usize,
+    created: usize,
+}
+
+type Log = Rc<RefCell<SrcLog>>;
+
+struct ChunkSrc {
+    data: Bytes,
+    pos: usize,
+    idx: usize,
+    pat: Vec<usize>,
+    pend_every: usize,
+    pended: bool,
+    err_at: Option<usize>,
+    done: bool,
+    log: Log,
+}
+
+impl ChunkSrc {
+    fn new(data: Bytes, spec: &ChunkSpec, log: Log) -> Self {
+        log.borrow_mut().created += 1;
+        ChunkSrc { data, pos: 0, idx: 0, pat: spec.norm(), pend_every: spec.pend_every, pended: false, err_at: spec.err_at, done: false, log }
+    }
+}
+
+impl Stream for ChunkSrc {
+    type Item = Result<Bytes, io::Error>;
+    fn poll_next(self: Pin<&mut Self>, cx: &mut Context<'_>) -> Poll<Option<Self::Item>> {
+        let this = self.get_mut();
+        let mut log = this.log.borrow_mut();
+        if this.done {
+            log.polled_after_end += 1;
+            return Poll::Ready(None);
+        }
+        if this.pend_every > 0 && !this.pended && this.idx % this.pend_every == this.pend_every - 1 {
+            this.pended = true;
+            log.pendings += 1;
+            cx.waker().wake_by_ref();
+            return Poll::Pending;
+        }
+        this.pended = false;
+        if this.err_at == Some(this.idx) {
+            this.done = true;
+            log.errored = true;
+            return Poll::Ready(Some(Err(io::Error::new(io::ErrorKind::Other, "scripted body failure"))));
+        }
+        let lead_empty = this.data.is_empty() && this.idx == 0 && this.pat[0] == 0;
+        if this.pos >= this.data.len() && !lead_empty {
+            this.done = true;
+            log.ended = true;
+            return Poll::Ready(None);
+        }
+        let n = this.pat[this.idx % this.pat.len()].min(this.data.len() - this.pos);
+        this.idx += 1;
+        let chunk = this.data.slice(this.pos..this.pos + n);
+        this.pos += n;
+        log.chunks += 1;
+        match n {
+            0 => log.empties += 1,
+            1..=1023 => log.small += 1,
+            _ => {
+                log.big += 1;
+                if n >= 2049 {
+                    log.huge += 1;
+                }
+            }
+        }
+        Poll::Ready(Some(Ok(chunk)))
+    }
+}
+
+/// A hand-written `MessageBody` (neither BodyStream nor SizedStream) with a chosen declared size.
+struct CustomBody {
+    src: ChunkSrc,
+    declared: BodySize,
+}
+
+impl MessageBody for CustomBody {
+    type Error = io::Error;
+    fn size(&self) -> BodySize {
+        self.declared
+    }
+    fn poll_next(mut self: Pin<&mut Self>, cx: &mut Context<'_>) -> Poll<Option<Result<Bytes, io::Error>>> {
+        Pin::new(&mut self.src).poll_next(cx)
+    }
+}
+
+// ------------------------------------------------------------------------------------------------
+// the codec libraries, used directly
+// ------------------------------------------------------------------------------------------------
+
+/// Decode `b` as content-coding `coding`.  Ok((bytes, trailing input bytes not consumed, if known)).
+fn lib_decode(coding: &str, b: &[u8], cap: usize) -> Result<(Vec<u8>, Option<usize>), String> {
+    let mut out = Vec::new();
+    let lim = cap as u64 + 1;
+    match coding {
+        "gzip" => {
+            let mut d = flate2::bufread::GzDecoder::new(b);
+            d.by_ref().take(lim).read_to_end(&mut out).map_err(|e| e.to_string())?;
+            if out.len() as u64 == lim {
+                return Err("output exceeds cap".into());
+            }
+            // make sure the trailer was verified (read past the end of the deflate stream)
+            let mut one = [0u8; 1];
+            match d.read(&mut one) {
+                Ok(0) => {}
+                Ok(_) => return Err("data after end".into()),
+                Err(e) => return Err(e.to_string()),
+            }
+            Ok((out, Some(d.into_inner().len())))
+        }
+        "deflate" => {
+            // zlib format, driven by hand so that a stream without its end marker / Adler-32
+            // trailer is an error (the Read adapters return a short Ok on truncated input)
+            let mut d = flate2::Decompress::new(true);
+            loop {
+                let pos = d.total_in() as usize;
+                out.reserve(64 * 1024);
+                let before = (d.total_in(), d.total_out());
+                let st = d.decompress_vec(&b[pos..], &mut out, flate2::FlushDecompress::None).map_err(|e| e.to_string())?;
+                if out.len() as u64 >= lim {
+                    return Err("output exceeds cap".into());
+                }
+                match st {
+                    flate2::Status::StreamEnd => break,
+                    _ => {
+                        if (d.total_in(), d.total_out()) == before {
+                            return Err(if d.total_in() as usize == b.len() { "truncated zlib stream".into() } else { "zlib decoder stalled".into() });
+                        }
+                    }
+                }
+            }
+            let used = d.total_in() as usize;
+            Ok((out, Some(b.len() - used.min(b.len()))))
+        }
+        "br" => {
+            let mut d = brotli::Decompressor::new(b, 4096);
+            d.by_ref().take(lim).read_to_end(&mut out).map_err(|e| e.to_string())?;
+            if out.len() as u64 == lim {
+                return Err("output exceeds cap".into());
+            }
+            Ok((out, None))
+        }
+        #[cfg(feature = "ffi")]
+        "zstd" => {
+            let mut d = zstd::stream::read::Decoder::new(b).map_err(|e| e.to_string())?;
+            d.by_ref().take(lim).read_to_end(&mut out).map_err(|e| e.to_string())?;
+            if out.len() as u64 == lim {
+                return Err("output exceeds cap".into());
+            }
+            Ok((out, Some(0)))
+        }
+        other => Err(format!("no library decoder for {other}")),
+    }
+}
+
+/// Encode with the library (request side).  `level` is reduced into the codec's range.
+fn lib_encode(coding: &str, level: u32, checksum: bool, data: &[u8]) -> Vec<u8> {
+    match coding {
+        "gzip" => {
+            let mut e = flate2::write::GzEncoder::new(Vec::new(), flate2::Compression::new(level % 10));
+            e.write_all(data).unwrap();
+            e.finish().unwrap()
+        }
+        "deflate" => {
+            let mut e = flate2::write::ZlibEncoder::new(Vec::new(), flate2::Compression::new(level % 10));
+            e.write_all(data).unwrap();
+            e.finish().unwrap()
+        }
+        "br" => {
+            let mut out = Vec::new();
+            {
+                let mut e = brotli::CompressorWriter::new(&mut out, 4096, level % 7, 16 + (level % 7));
+                e.write_all(data).unwrap();
+                e.flush().unwrap();
+            }
+            out
+        }
+        #[cfg(feature = "ffi")]
+        "zstd" => {
+            let mut e = zstd::stream::write::Encoder::new(Vec::new(), 1 + (level % 6) as i32).unwrap();
+            let _ = e.include_checksum(checksum);
+            e.write_all(data).unwrap();
+            e.finish().unwrap()
+        }
+        _ => {
+            let _ = checksum;
+            data.to_vec()
+        }
+    }
+}
+
+/// What the brotli library makes of `b` under different feedings (only successful decodes).
+fn br_variants(b: &[u8], chunks: &ChunkSpec) -> Vec<Vec<u8>> {
+    let mut outs = vec![];
+    for bufsz in [65536usize, 1 << 22] {
+        let mut out = Vec::new();
+        if brotli::Decompressor::new(b, bufsz).read_to_end(&mut out).is_ok() {
+            outs.push(out);
+        }
+    }
+    let pat = chunks.norm();
+    for own in [false, true] {
+        let mut w = brotli::DecompressorWriter::new(Vec::new(), 8096);
+        let mut ok = true;
+        let (mut pos, mut i) = (0usize, 0usize);
+        while pos < b.len() && ok {
+            let n = if own { pat[i % pat.len()].min(b.len() - pos) } else { b.len() };
+            i += 1;
+            ok = w.write_all(&b[pos..pos + n]).is_ok();
+            pos += n;
+        }
+        if ok && w.close().is_ok() {
+            outs.push(w.get_ref().clone());
+        }
+    }
+    outs
+}
+
+fn content_encoding_of(c: &str) -> ContentEncoding {
+    match c {
+        "gzip" => ContentEncoding::Gzip,
+        "deflate" => ContentEncoding::Deflate,
+        "br" => ContentEncoding::Brotli,
+        "zstd" => ContentEncoding::Zstd,
+        _ => ContentEncoding::Identity,
+    }
+}
+
+// ------------------------------------------------------------------------------------------------
+// response side: the case, the handler program, the two ways of serving it
+// ------------------------------------------------------------------------------------------------
+
+#[derive(Serialize, Deserialize, Clone, Debug)]
+struct RespCase {
+    phase: String,
+    /// svc (Service interface) | h1 (real HTTP/1 stack on a scripted socket)
+    mode: String,
+    http10: bool,
+    /// values of the request's Accept-Encoding field lines (`esc` rendering); empty: no header
+    ae: Vec<String>,
+    status: u16,
+    ctype: Option<String>,
+    /// Content-Encoding the handler sets itself (the "already encoded" case)
+    cenc: Option<String>,
+    /// none | bytes | vec | stream | sized | nochunk | custom-stream | custom-sized
+    body: String,
+    data: DataSpec,
+    chunks: ChunkSpec,
+}
+
+impl RespCase {
+    fn replay(&self) -> Value {
+        json!({"t": "resp", "case": serde_json::to_value(self).unwrap_or(Value::Null)})
+    }
+    fn streamed(&self) -> bool {
+        !matches!(self.body.as_str(), "none" | "bytes" | "vec")
+    }
+    fn declared_empty(&self) -> bool {
+        match self.body.as_str() {
+            "none" => true,
+            "bytes" | "vec" | "sized" | "nochunk" | "custom-sized" => self.data.len == 0,
+            _ => false,
+        }
+    }
+    /// number of chunks the handler body hands to the middleware
+    fn in_chunks(&self) -> usize {
+        if self.streamed() {
+            self.chunks.n_chunks(self.data.len)
+        } else {
+            1
+        }
+    }
+    fn expect_error(&self) -> bool {
+        match self.chunks.err_at {
+            // a body that declares itself empty is never polled
+            Some(k) if self.streamed() && !self.declared_empty() => k <= self.chunks.n_chunks(self.data.len),
+            _ => false,
+        }
+    }
+    fn ae_lines(&self) -> Vec<Vec<u8>> {
+        self.ae.iter().map(|s| unesc(s)).collect()
+    }
+}
+
+struct Shared {
+    spec: RefCell<Option<(RespCase, Bytes)>>,
+    log: RefCell<Log>,
+    calls: Cell<u32>,
+}
+
+impl Shared {
+    fn new() -> Rc<Self> {
+        Rc::new(Shared { spec: RefCell::new(None), log: RefCell::new(Rc::new(RefCell::new(SrcLog::default()))), calls: Cell::new(0) })
+    }
+    fn arm(&self, case: &RespCase, data: Bytes) -> Log {
+        *self.spec.borrow_mut() = Some((case.clone(), data));
+        let log: Log = Rc::new(RefCell::new(SrcLog::default()));
+        *self.log.borrow_mut() = log.clone();
+        self.calls.set(0);
+        log
+    }
+}
+
+fn build_response(sh: &Shared) -> HttpResponse {
+    sh.calls.set(sh.calls.get() + 1);
+    let (case, data) = sh.spec.borrow().clone().expect("handler called without a case");
+    let log = sh.log.borrow().clone();
+    let mut b = HttpResponse::build(StatusCode::from_u16(case.status).unwrap_or(StatusCode::OK));
+    if let Some(ct) = &case.ctype {
+        if let Ok(v) = HeaderValue::from_bytes(ct.as_bytes()) {
+            b.insert_header((header::CONTENT_TYPE, v));
+        }
+    }
+    if let Some(ce) = &case.cenc {
+        if let Ok(v) = HeaderValue::from_bytes(ce.as_bytes()) {
+            b.insert_header((header::CONTENT_ENCODING, v));
+        }
+    }
+    let len = data.len() as u64;
+    match case.body.as_str() {
+        "none" => b.body(actix_web::body::None::new()),
+        "bytes" => b.body(data),
+        "vec" => b.body(data.to_vec()),
+        "stream" => b.streaming(ChunkSrc::new(data, &case.chunks, log)),
+        "sized" => b.body(SizedStream::new(len, ChunkSrc::new(data, &case.chunks, log))),
+        "nochunk" => {
+            b.no_chunking(len);
+            b.streaming(ChunkSrc::new(data, &case.chunks, log))
+        }
+        "custom-sized" => b.body(CustomBody { src: ChunkSrc::new(data, &case.chunks, log), declared: BodySize::Sized(len) }),
+        _ => b.body(CustomBody { src: ChunkSrc::new(data, &case.chunks, log), declared: BodySize::Stream }),
+    }
+}
+
+macro_rules! make_app {
+    ($sh:expr) => {{
+        let sh: Rc<Shared> = $sh;
+        App::new().wrap(Compress::default()).default_service(web::to(move |_req: HttpRequest| {
+            let sh = sh.clone();
+            async move { build_response(&sh) }
+        }))
+    }};
+}
+
+#[derive(Debug, Clone, PartialEq)]
+enum End {
+    Clean,
+    Err(String),
+    StepBound,
+    OutputUnbounded,
+    Watchdog,
+}
+
+#[derive(Debug)]
+struct Obs {
+    status: u16,
+    /// (lower-case name, value)
+    headers: Vec<(String, Vec<u8>)>,
+    /// what `MessageBody::size()` said (svc mode)
+    declared: Option<BodySize>,
+    raw: Vec<u8>,
+    out_chunks: usize,
+    end: End,
+    svc_error: Option<String>,
+    /// wire mode: a framing failure found while parsing the bytes on the socket
+    wire_fail: Option<(&'static str, String)>,
+    framing: Option<RespFraming>,
+}
+
+impl Obs {
+    fn header_all(&self, name: &str) -> Vec<&[u8]> {
+        self.headers.iter().filter(|h| h.0 == name).map(|h| h.1.as_slice()).collect()
+    }
+}
+
+async fn drain<B: MessageBody>(body: B, max_chunks: usize, max_bytes: usize) -> (Vec<u8>, usize, End) {
+    let mut body = Box::pin(body);
+    let mut raw = Vec::new();
+    let mut n = 0usize;
+    loop {
+        match poll_fn(|cx| body.as_mut().poll_next(cx)).await {
+            None => return (raw, n, End::Clean),
+            Some(Err(e)) => {
+                let e: Box<dyn std::error::Error> = e.into();
+                let mut txt = e.to_string();
+                let mut src = e.source();
+                while let Some(s) = src {
+                    txt.push_str(": ");
+                    txt.push_str(&s.to_string());
+                    src = s.source();
+                }
+                return (raw, n, End::Err(txt));
+            }
+            Some(Ok(c)) => {
+                n += 1;
+                raw.extend_from_slice(&c);
+                if n > max_chunks {
+                    return (raw, n, End::StepBound);
+                }
+                if raw.len() > max_bytes {
+                    return (raw, n, End::OutputUnbounded);
+                }
+            }
+        }
+    }
+}
+
+type SvcCall = Box<dyn Fn(Request, usize, usize) -> Pin<Box<dyn Future<Output = Obs>>>>;
+
+fn erase_service<S, B>(svc: S) -> SvcCall
+where
+    S: Service<Request, Response = ServiceResponse<B>, Error = actix_web::Error> + 'static,
+    B: MessageBody + 'static,
+{
+    let svc = Rc::new(svc);
+    Box::new(move |req, max_chunks, max_bytes| {
+        let svc = svc.clone();
+        Box::pin(async move {
+            let mut obs = Obs {
+                status: 0,
+                headers: vec![],
+                declared: None,
+                raw: vec![],
+                out_chunks: 0,
+                end: End::Clean,
+                svc_error: None,
+                wire_fail: None,
+                framing: None,
+            };
+            let fut = async {
+                match svc.call(req).await {
+                    Err(e) => Err(format!("{e}")),
+                    Ok(res) => {
+                        let (_rq, resp) = res.into_parts();
+                        let (head, body) = resp.into_parts();
+                        let status = head.status().as_u16();
+                        let headers: Vec<(String, Vec<u8>)> =
+                            head.headers().iter().map(|(k, v)| (k.as_str().to_ascii_lowercase(), v.as_bytes().to_vec())).collect();
+                        let declared = body.size();
+                        let (raw, n, end) = drain(body, max_chunks, max_bytes).await;
+                        Ok((status, headers, declared, raw, n, end))
+                    }
+                }
+            };
+            match tokio::time::timeout(WATCHDOG, fut).await {
+                Err(_) => obs.end = End::Watchdog,
+                Ok(Err(e)) => obs.svc_error = Some(e),
+                Ok(Ok((status, headers, declared, raw, n, end))) => {
+                    obs.status = status;
+                    obs.headers = headers;
+                    obs.declared = Some(declared);
+                    obs.raw = raw;
+                    obs.out_chunks = n;
+                    obs.end = end;
+                }
+            }
+            obs
+        })
+    })
+}
+
+type ConnFut = Pin<Box<dyn Future<Output = Result<(), String>>>>;
+type Opener = Box<dyn Fn(crate::world::io::ScriptIo) -> ConnFut>;
+
+/// The same app behind the real `HttpService` (HTTP/1 dispatcher and encoder).
+async fn h1_stack(sh: Rc<Shared>) -> Opener {
+    let factory = HttpService::build()
+        .keep_alive(KeepAlive::Disabled)
+        .client_request_timeout(Duration::ZERO)
+        .client_disconnect_timeout(Duration::ZERO)
+        .finish(map_config(make_app!(sh), |_| AppConfig::default()));
+    let svc = Rc::new(factory.new_service(()).await.expect("service init"));
+    Box::new(move |io| {
+        let fut = svc.call((io, Protocol::Http1, None));
+        Box::pin(async move { fut.await.map_err(|e| format!("{e}")) })
+    })
+}
+
+async fn exec_h1(open: &Opener, case: &RespCase) -> Obs {
+    let mut obs =
+        Obs { status: 0, headers: vec![], declared: None, raw: vec![], out_chunks: 0, end: End::Clean, svc_error: None, wire_fail: None, framing: None };
+    let (io, h) = script_io();
+    let mut rq = format!("GET /x HTTP/1.{}\r\nhost: t\r\n", if case.http10 { 0 } else { 1 }).into_bytes();
+    for l in case.ae_lines() {
+        rq.extend_from_slice(b"accept-encoding: ");
+        rq.extend_from_slice(&l);
+        rq.extend_from_slice(b"\r\n");
+    }
+    rq.extend_from_slice(b"\r\n");
+    h.push(&rq);
+    h.eof();
+    let fut = open(io);
+    match tokio::time::timeout(WATCHDOG, fut).await {
+        Err(_) => {
+            obs.end = End::Watchdog;
+            return obs;
+        }
+        Ok(Err(e)) => obs.svc_error = Some(e),
+        Ok(Ok(())) => {}
+    }
+    let out = h.out();
+    let p = parse_responses(&out, &|_| Some("GET".to_string()), true);
+    if let Some((at, why)) = p.malformed_at {
+        let has_cl = p.resps.first().map(|r| r.header("content-length").is_some()).unwrap_or(false);
+        obs.wire_fail = Some((
+            if has_cl { "length/stale-content-length" } else { "wire/malformed" },
+            format!("response stream not parseable at offset {at} of {}: {why}; head: {}", out.len(), esc_short(&out, 300)),
+        ));
+    }
+    match p.resps.first() {
+        None => {
+            if obs.wire_fail.is_none() {
+                obs.wire_fail = Some(("wire/no-response", format!("{} bytes on the wire, no response; connection result {:?}", out.len(), obs.svc_error)));
+            }
+        }
+        Some(r) => {
+            obs.status = r.status;
+            obs.headers = r.headers.clone();
+            obs.raw = r.body.clone();
+            obs.out_chunks = r.chunk_sizes.len();
+            obs.framing = Some(r.framing.clone());
+            let cl = r.header_count("content-length");
+            let te = r.header_count("transfer-encoding");
+            if cl > 0 && te > 0 {
+                obs.wire_fail = Some(("length/cl-and-chunked", format!("both content-length and transfer-encoding on the wire: {}", esc_short(&out[..r.head_end], 400))));
+            } else if cl > 1 {
+                obs.wire_fail = Some(("length/cl-and-chunked", format!("{cl} content-length headers: {}", esc_short(&out[..r.head_end], 400))));
+            } else if !r.complete && obs.wire_fail.is_none() {
+                let class = if cl > 0 { "length/stale-content-length" } else { "wire/incomplete" };
+                obs.wire_fail = Some((
+                    class,
+                    format!(
+                        "response incomplete under its own framing {:?}: {} body bytes on the wire; connection result {:?}; head: {}",
+                        r.framing,
+                        r.body.len(),
+                        obs.svc_error,
+                        esc_short(&out[..r.head_end], 400)
+                    ),
+                ));
+            } else if p.resps.len() > 1 && obs.wire_fail.is_none() {
+                obs.wire_fail = Some(("wire/malformed", format!("{} responses to one request", p.resps.len())));
+            }
+        }
+    }
+    obs
+}
+
+// ------------------------------------------------------------------------------------------------
+// response side: the oracle
+// ------------------------------------------------------------------------------------------------
+
+/// Abstract rendering of an Accept-Encoding header: per supported coding / `*` / anything else,
+/// `-` not named, `0` only q=0, `+` only q>0, `?` both.
+fn ae_abstract(ae: &negotiate::AcceptEncoding, nlines: usize) -> String {
+    if !ae.present {
+        return "ae:absent".into();
+    }
+    let mut s = String::from("ae:");
+    if ae.items.is_empty() && !ae.malformed {
+        s.push_str("empty");
+    }
+    let mut names: Vec<&str> = SUPPORTED.to_vec();
+    names.push("*");
+    for n in names {
+        let (mut z, mut p) = (false, false);
+        for (c, q) in &ae.items {
+            if c == n {
+                if *q == 0 {
+                    z = true
+                } else {
+                    p = true
+                }
+            }
+        }
+        s.push_str(match (z, p) {
+            (false, false) => "-",
+            (true, false) => "0",
+            (false, true) => "+",
+            (true, true) => "?",
+        });
+    }
+    let other = ae.items.iter().any(|(c, _)| c != "*" && !SUPPORTED.contains(&c.as_str()));
+    if other {
+        s.push_str("/other");
+    }
+    if ae.malformed {
+        s.push_str("/malformed");
+    }
+    if nlines > 1 {
+        s.push_str("/multi");
+    }
+    s
+}
+
+fn ctype_skips(ct: &Option<String>) -> bool {
+    // documented skip rule of the middleware: image/* except SVG, video/*
+    match ct {
+        None => false,
+        Some(ct) => {
+            let l = ct.trim().to_ascii_lowercase();
+            (l.starts_with("image/") && !l.starts_with("image/svg+xml")) || l.starts_with("video/")
+        }
+    }
+}
+
+fn chunk_classes(case: &RespCase, log: &SrcLog) -> String {
+    if !case.streamed() {
+        return format!("one:{}", if case.data.len >= 1024 { "big" } else { "small" });
+    }
+    let mut s = String::new();
+    if log.small > 0 {
+        s.push('s');
+    }
+    if log.big > 0 {
+        s.push('B');
+    }
+    if log.small > 0 && log.big > 0 {
+        s.push('x');
+    }
+    if log.empties > 0 {
+        s.push('e');
+    }
+    if log.pendings > 0 {
+        s.push('p');
+    }
+    if log.chunks == 0 {
+        s.push('0');
+    }
+    s
+}
+
+fn skip_reason(case: &RespCase) -> Option<&'static str> {
+    if case.cenc.is_some() {
+        Some("already-encoded")
+    } else if case.status == 101 {
+        Some("101")
+    } else if case.status == 204 {
+        Some("204")
+    } else if case.status == 206 {
+        Some("206")
+    } else if case.declared_empty() {
+        Some("empty")
+    } else {
+        None
+    }
+}
+
+/// Ok(outcome tag for the signature) or the first failing clause.
+fn judge_resp(case: &RespCase, h: &[u8], obs: &Obs, log: &SrcLog, calls: u32, rep: &mut Reporter) -> Result<String, Fail> {
+    let lines = case.ae_lines();
+    let refs: Vec<&[u8]> = lines.iter().map(|l| l.as_slice()).collect();
+    let ae = negotiate::parse(&refs);
+    let aes = ae_abstract(&ae, lines.len());
+    let ae_txt = || format!("Accept-Encoding {:?}", case.ae);
+    let cc = chunk_classes(case, log);
+    let shape = format!("{}/{}/{}/{}", case.body, size_class(case.data.len), case.data.kind, cc);
+
+    if let Some((class, detail)) = &obs.wire_fail {
+        let ce = obs.header_all("content-encoding").first().map(|v| String::from_utf8_lossy(v).into_owned()).unwrap_or_else(|| "none".into());
+        return Err(fail(class, format!("h1{} ce={ce} {}", if case.http10 { ".0" } else { ".1" }, case.body), detail.clone()));
+    }
+    if let Some(e) = &obs.svc_error {
+        if case.mode == "svc" {
+            return Err(fail("service-error", format!("{} {}", case.body, case.status), format!("the service call failed: {e}")));
+        }
+        if !case.expect_error() {
+            return Err(fail("wire/connection-error", format!("{} {}", case.body, case.status), format!("the connection ended with an error: {e}")));
+        }
+    }
+
+    // ---- 406 from the middleware
+    if calls == 0 {
+        if obs.status != 406 {
+            return Err(fail("negotiate/handler-not-called", aes, format!("{}: status {} without calling the handler", ae_txt(), obs.status)));
+        }
+        let v = ae.verdicts(SUPPORTED);
+        if v.values().any(|x| *x == Verdict::Ambiguous) {
+            rep.count("ae:ambiguous", 1);
+            rep.count("406:ambiguous-header", 1);
+            return Ok("406/ambiguous".into());
+        }
+        if v["identity"] == Verdict::Yes {
+            return Err(fail("negotiate/406-identity-acceptable", aes, format!("{}: answered 406 although an unencoded response is acceptable", ae_txt())));
+        }
+        let listed: Vec<&str> = CODINGS.iter().copied().filter(|c| v[*c] == Verdict::Yes && !ae.via_wildcard(c)).collect();
+        if !listed.is_empty() {
+            return Err(fail(
+                "negotiate/406-listed-coding-acceptable",
+                aes,
+                format!("{}: answered 406 although the supported coding(s) {:?} are listed with q>0", ae_txt(), listed),
+            ));
+        }
+        if CODINGS.iter().any(|c| v[*c] == Verdict::Yes) {
+            rep.count("406:tolerated-wildcard-would-allow", 1);
+            return Ok("406/wildcard-only".into());
+        }
+        rep.count("406:nothing-acceptable", 1);
+        return Ok("406/none".into());
+    }
+    if obs.status == 406 {
+        return Err(fail("negotiate/406-after-handler", aes, format!("{}: 406 although the handler ran", ae_txt())));
+    }
+    if obs.status != case.status {
+        return Err(fail("passthrough/status-changed", format!("{}", case.status), format!("handler status {} became {}", case.status, obs.status)));
+    }
+
+    // ---- the stream's ending
+    match &obs.end {
+        End::StepBound => {
+            return Err(fail(
+                "terminates/step-bound",
+                shape,
+                format!("body produced {} chunks for {} input chunks and has not ended", obs.out_chunks, case.in_chunks()),
+            ))
+        }
+        End::OutputUnbounded => {
+            return Err(fail("terminates/output-unbounded", shape, format!("body produced {} bytes for {} input bytes and has not ended", obs.raw.len(), h.len())))
+        }
+        End::Err(e) => {
+            if case.expect_error() {
+                rep.count("body-error:propagated", 1);
+                return Ok("body-error".into());
+            }
+            return Err(fail("lossless/stream-error", shape, format!("body stream failed: {e} (after {} bytes)", obs.raw.len())));
+        }
+        End::Clean => {
+            if case.expect_error() && case.mode == "svc" {
+                return Err(fail(
+                    "body-error/swallowed",
+                    shape,
+                    format!("the handler body failed at chunk {:?} but the response body ended cleanly after {} bytes", case.chunks.err_at, obs.raw.len()),
+                ));
+            }
+        }
+        End::Watchdog => return Ok("watchdog".into()),
+    }
+    if case.expect_error() {
+        // wire mode: the connection must not look like a complete, valid message
+        rep.count("body-error:wire-incomplete-or-closed", 1);
+        return Ok("body-error".into());
+    }
+
+    // ---- label and bytes
+    let ce_vals = obs.header_all("content-encoding");
+    let ce_txt: Vec<String> = ce_vals.iter().map(|v| String::from_utf8_lossy(v).into_owned()).collect();
+    let outcome;
+    if let Some(reason) = skip_reason(case) {
+        let want: Vec<String> = case.cenc.iter().cloned().collect();
+        if ce_txt != want {
+            return Err(fail(
+                "passthrough/relabelled",
+                format!("{reason} {}", ce_txt.join(",")),
+                format!("a response that must not be re-encoded ({reason}) has Content-Encoding {:?}, the handler set {:?}; {}", ce_txt, want, ae_txt()),
+            ));
+        }
+        if obs.raw != h {
+            return Err(fail(
+                "passthrough/body-changed",
+                format!("{reason} {}", case.body),
+                format!("a response that must not be re-encoded ({reason}) has a body of {} bytes, the handler's has {}; {}", obs.raw.len(), h.len(), ae_txt()),
+            ));
+        }
+        rep.count(&format!("skip:{reason}"), 1);
+        outcome = format!("skip:{reason}");
+    } else {
+        if ce_txt.len() > 1 {
+            return Err(fail("label/multiple", ce_txt.join(","), format!("several Content-Encoding headers: {:?}", ce_txt)));
+        }
+        let ctskip = ctype_skips(&case.ctype);
+        match ce_txt.first().map(|s| s.as_str()) {
+            None => {
+                if obs.raw != h {
+                    let k = obs.raw.iter().zip(h.iter()).take_while(|(a, b)| a == b).count();
+                    return Err(fail(
+                        "lossless/mismatch",
+                        format!("identity/{shape}"),
+                        format!("unlabelled body differs from the handler's: {} vs {} bytes, first difference at {k}; {}", obs.raw.len(), h.len(), ae_txt()),
+                    ));
+                }
+                if ctskip {
+                    rep.count("skip:content-type", 1);
+                    outcome = "identity/ctype".into();
+                } else {
+                    match ae.permits("identity") {
+                        Verdict::No => {
+                            return Err(fail(
+                                "negotiate/identity-excluded",
+                                aes,
+                                format!("{}: the response is not encoded although the request excludes the identity coding", ae_txt()),
+                            ))
+                        }
+                        Verdict::Ambiguous => rep.count("ae:ambiguous", 1),
+                        Verdict::Yes => {}
+                    }
+                    outcome = "identity".into();
+                }
+            }
+            Some(c) => {
+                if !CODINGS.contains(&c) {
+                    return Err(fail("label/unknown-coding", c.to_string(), format!("Content-Encoding {c:?} is not a coding of the middleware; {}", ae_txt())));
+                }
+                match lib_decode(c, &obs.raw, h.len() + 1024) {
+                    Err(e) => {
+                        return Err(fail(
+                            "lossless/decode-error",
+                            format!("{c}/{shape}"),
+                            format!("the {c} decoder of the library rejects the {} body bytes labelled {c}: {e}; handler body {} bytes; start {}", obs.raw.len(), h.len(), esc_short(&obs.raw, 48)),
+                        ))
+                    }
+                    Ok((out, trailing)) => {
+                        if out != h {
+                            let k = out.iter().zip(h.iter()).take_while(|(a, b)| a == b).count();
+                            return Err(fail(
+                                "lossless/mismatch",
+                                format!("{c}/{shape}"),
+                                format!("decoding the {c} body gives {} bytes, the handler sent {}; first difference at {k}", out.len(), h.len()),
+                            ));
+                        }
+                        if let Some(t) = trailing {
+                            if t > 0 {
+                                return Err(fail("lossless/trailing-bytes", format!("{c}/{shape}"), format!("{t} bytes follow the end of the {c} stream")));
+                            }
+                        }
+                    }
+                }
+                match ae.permits(c) {
+                    Verdict::No => {
+                        return Err(fail(
+                            "negotiate/coding-not-permitted",
+                            format!("{c} {aes}"),
+                            format!("{}: the response is encoded with {c}, which the request does not accept", ae_txt()),
+                        ))
+                    }
+                    Verdict::Ambiguous => rep.count("ae:ambiguous", 1),
+                    Verdict::Yes => {
+                        if ae.via_wildcard(c) {
+                            rep.count("chosen-via-wildcard", 1);
+                        }
+                        // statistics only: was it (one of) the client's most preferred supported codings?
+                        let best = CODINGS.iter().filter(|x| ae.permits(x) == Verdict::Yes).filter_map(|x| ae.q_of(x)).max();
+                        if ae.present && best.is_some() && ae.q_of(c) == best {
+                            rep.count("chosen-has-highest-q", 1);
+                        } else if ae.present {
+                            rep.count("chosen-not-highest-q", 1);
+                        }
+                    }
+                }
+                if ctskip {
+                    rep.count("encoded-despite-content-type", 1);
+                }
+                rep.max(&format!("ratio_pct:{c}"), (obs.raw.len() * 100 / h.len().max(1)) as u64);
+                outcome = c.to_string();
+            }
+        }
+    }
+
+    // ---- declared size
+    match obs.declared {
+        Some(BodySize::Sized(n)) if n != obs.raw.len() as u64 => {
+            return Err(fail(
+                "length/declared-size-mismatch",
+                format!("{outcome}/{}", case.body),
+                format!("the response body declares {n} bytes and yields {} (handler body {} bytes)", obs.raw.len(), h.len()),
+            ))
+        }
+        Some(BodySize::None) if !obs.raw.is_empty() => {
+            return Err(fail("length/declared-size-mismatch", format!("{outcome}/{}", case.body), format!("the response body declares no body and yields {} bytes", obs.raw.len())))
+        }
+        Some(BodySize::Sized(_)) => rep.count("declared:sized", 1),
+        Some(BodySize::Stream) => rep.count("declared:stream", 1),
+        Some(BodySize::None) => rep.count("declared:none", 1),
+        None => {}
+    }
+    if let Some(f) = &obs.framing {
+        rep.count(
+            &format!(
+                "wire-framing:{}",
+                match f {
+                    RespFraming::Cl(_) => "content-length",
+                    RespFraming::Chunked => "chunked",
+                    RespFraming::CloseDelimited => "close-delimited",
+                    RespFraming::NoBody => "no-body",
+                }
+            ),
+            1,
+        );
+    }
+    Ok(outcome)
+}
+
+struct Env {
+    sh: Rc<Shared>,
+    svc: SvcCall,
+    h1: Option<Opener>,
+    progress: Arc<AtomicU64>,
+    watchdogs: u64,
+}
+
+impl Env {
+    async fn new(progress: Arc<AtomicU64>, with_h1: bool) -> Env {
+        let sh = Shared::new();
+        let svc = erase_service(test::init_service(make_app!(sh.clone())).await);
+        let h1 = if with_h1 { Some(h1_stack(sh.clone()).await) } else { None };
+        Env { sh, svc, h1, progress, watchdogs: 0 }
+    }
+}
+
+/// Execute and judge one response case.  Returns false on a violation.
+async fn run_resp_case(env: &mut Env, case: &RespCase, rep: &mut Reporter) -> bool {
+    rep.eval();
+    env.progress.fetch_add(1, SeqCst);
+    let data = Bytes::from(make_data(&case.data));
+    let log = env.sh.arm(case, data.clone());
+    let in_chunks = case.in_chunks();
+    let max_chunks = 2 * in_chunks + 16;
+    let max_bytes = data.len() * 2 + 64 * in_chunks + 8192;
+    let run = async {
+        if case.mode == "h1" {
+            match &env.h1 {
+                Some(open) => exec_h1(open, case).await,
+                None => unreachable!("h1 stack not built"),
+            }
+        } else {
+            let mut rq = test::TestRequest::get().uri("/x");
+            for l in case.ae_lines() {
+                match HeaderValue::from_bytes(&l) {
+                    Ok(v) => rq = rq.append_header((header::ACCEPT_ENCODING, v)),
+                    Err(_) => {}
+                }
+            }
+            (env.svc)(rq.to_request(), max_chunks, max_bytes).await
+        }
+    };
+    let obs = match AssertUnwindSafe(run).catch_unwind().await {
+        Ok(o) => o,
+        Err(p) => {
+            let m = panic_text(p);
+            rep.violation("panic", &format!("response {}", panic_site(&m)), &format!("panic while serving {:?}: {m}", case), case.replay());
+            // the service may be left in a broken state: rebuild it
+            let fresh = Env::new(env.progress.clone(), env.h1.is_some()).await;
+            env.sh = fresh.sh;
+            env.svc = fresh.svc;
+            env.h1 = fresh.h1;
+            return false;
+        }
+    };
+    if obs.end == End::Watchdog {
+        env.watchdogs += 1;
+        rep.count("watchdog_fired", 1);
+        return true;
+    }
+    let calls = env.sh.calls.get();
+    let log = log.borrow();
+    rep.count(&format!("mode:{}", case.mode), 1);
+    rep.count("handler_chunks_small", log.small as u64);
+    rep.count("handler_chunks_blocking_path", log.big as u64);
+    rep.count("handler_chunks_empty", log.empties as u64);
+    rep.count("handler_pendings", log.pendings as u64);
+    rep.max("body_bytes", case.data.len as u64);
+    rep.max("out_chunks", obs.out_chunks as u64);
+    if log.polled_after_end > 0 {
+        // `Stream::poll_next` after `None` may panic or block forever (std/futures contract); an
+        // encoder that keeps polling a finished handler body has not terminated it properly
+        rep.count("handler_body_polled_after_end", log.polled_after_end as u64);
+        rep.violation(
+            "terminates/polled-after-end",
+            &format!("{} {}", case.mode, case.body),
+            &format!("the handler body was polled {} more time(s) after it had returned None (end of stream); case {:?}", log.polled_after_end, case),
+            case.replay(),
+        );
+        return false;
+    }
+    match judge_resp(case, &data, &obs, &log, calls, rep) {
+        Ok(outcome) => {
+            rep.count(&format!("outcome:{}", outcome.split('/').next().unwrap_or("")), 1);
+            let lines = case.ae_lines();
+            let refs: Vec<&[u8]> = lines.iter().map(|l| l.as_slice()).collect();
+            let ae = negotiate::parse(&refs);
+            let sig = if case.phase.starts_with("neg") {
+                format!("neg|{}|{}|{outcome}", ae_abstract(&ae, lines.len()), if case.phase == "neg-rand" { case.status } else { 0 })
+            } else {
+                format!(
+                    "{}|{}|{}|{}|{}|{}|{}|ct={}|ce={}|{outcome}",
+                    case.mode,
+                    if case.http10 { "1.0" } else { "1.1" },
+                    case.body,
+                    size_class(case.data.len),
+                    case.data.kind,
+                    chunk_classes(case, &log),
+                    case.status,
+                    case.ctype.as_deref().unwrap_or("-"),
+                    case.cenc.as_deref().unwrap_or("-"),
+                )
+            };
+            rep.sig(&sig);
+            if rep.get("evaluations") % 997 == 1 {
+                rep.sample(&format!("resp:{}", case.phase), json!({"case": case, "status": obs.status, "content_encoding": obs.header_all("content-encoding").iter().map(|v| String::from_utf8_lossy(v).into_owned()).collect::<Vec<_>>(), "raw_len": obs.raw.len(), "outcome": outcome}));
+            }
+            true
+        }
+        Err(f) => {
+            rep.violation(f.class, &f.sig, &f.detail, case.replay());
+            false
+        }
+    }
+}
+
+// ------------------------------------------------------------------------------------------------
+// request side
+// ------------------------------------------------------------------------------------------------
+
+#[derive(Serialize, Deserialize, Clone, Debug)]
+struct ReqCase {
+    phase: String,
+    /// direct (`Decoder::new`) | headers (`Decoder::from_headers`) | bytes (`web::Bytes` extractor)
+    /// | payload (`web::Payload` + `dev::Decompress`)
+    mode: String,
+    coding: String,
+    /// Content-Encoding text sent (case variants)
+    label: String,
+    level: u32,
+    checksum: bool,
+    data: DataSpec,
+    /// chunking of the *compressed* bytes; `err_at` makes the transport fail
+    chunks: ChunkSpec,
+    /// none | truncate | flip
+    damage: String,
+    /// truncate: bytes kept; flip: byte position
+    at: usize,
+    bit: u8,
+}
+
+impl ReqCase {
+    fn replay(&self) -> Value {
+        json!({"t": "req", "case": serde_json::to_value(self).unwrap_or(Value::Null)})
+    }
+}
+
+#[derive(Debug)]
+enum ReqEnd {
+    Ok(Vec<u8>),
+    Err(String),
+    StepBound(usize),
+    TooMuch(usize),
+    Watchdog,
+}
+
+macro_rules! make_req_app {
+    () => {
+        App::new()
+            .app_data(web::PayloadConfig::new(64 << 20))
+            .route("/bytes", web::post().to(|b: Bytes| async move { HttpResponse::Ok().body(b) }))
+            .route(
+                "/payload",
+                web::post().to(|req: HttpRequest, pl: web::Payload| async move {
+                    let mut d = Box::pin(actix_web::dev::Decompress::from_headers(pl.into_inner(), req.headers()));
+                    let mut out = Vec::new();
+                    let mut n = 0usize;
+                    while let Some(item) = d.next().await {
+                        match item {
+                            Ok(c) => {
+                                out.extend_from_slice(&c);
+                                n += 1;
+                                if n > 4_000_000 || out.len() > (256 << 20) {
+                                    return HttpResponse::InsufficientStorage().body("cap");
+                                }
+                            }
+                            // consumers stop at the first error
+                            Err(e) => return HttpResponse::BadRequest().body(format!("{e}")),
+                        }
+                    }
+                    HttpResponse::Ok().body(out)
+                }),
+            )
+    };
+}
+
+type ReqCall = Box<dyn Fn(Request) -> Pin<Box<dyn Future<Output = Result<(u16, Vec<u8>), String>>>>>;
+
+fn erase_req_service<S, B>(svc: S) -> ReqCall
+where
+    S: Service<Request, Response = ServiceResponse<B>, Error = actix_web::Error> + 'static,
+    B: MessageBody + 'static,
+{
+    let svc = Rc::new(svc);
+    Box::new(move |req| {
+        let svc = svc.clone();
+        Box::pin(async move {
+            match svc.call(req).await {
+                // an extractor failure surfaces as a service error: that is an error outcome
+                Err(e) => Ok((e.as_response_error().status_code().as_u16(), format!("{e}").into_bytes())),
+                Ok(res) => {
+                    let status = res.status().as_u16();
+                    let (raw, _, end) = drain(res.into_body(), usize::MAX, usize::MAX).await;
+                    match end {
+                        End::Clean => Ok((status, raw)),
+                        other => Err(format!("response body of the echo handler: {:?}", other)),
+                    }
+                }
+            }
+        })
+    })
+}
+
+fn damaged_input(case: &ReqCase, c: &[u8]) -> Vec<u8> {
+    let mut v = c.to_vec();
+    match case.damage.as_str() {
+        "truncate" => v.truncate(case.at.min(c.len())),
+        "flip" if !v.is_empty() => {
+            let i = case.at % v.len();
+            v[i] ^= 1 << (case.bit % 8);
+        }
+        _ => {}
+    }
+    v
+}
+
+async fn exec_req(call: &ReqCall, case: &ReqCase, input: Bytes, log: Log, max_chunks: usize, max_bytes: usize) -> ReqEnd {
+    let src = ChunkSrc::new(input, &case.chunks, log).map(|r| r.map_err(PayloadError::Io));
+    let fut = async {
+        match case.mode.as_str() {
+            "direct" | "headers" => {
+                let mut dec = if case.mode == "direct" {
+                    Box::pin(Decoder::new(src, content_encoding_of(&case.coding)))
+                } else {
+                    let mut hm = HeaderMap::new();
+                    if let Ok(v) = HeaderValue::from_bytes(case.label.as_bytes()) {
+                        hm.insert(header::CONTENT_ENCODING, v);
+                    }
+                    Box::pin(Decoder::from_headers(src, &hm))
+                };
+                let mut out = Vec::new();
+                let mut n = 0usize;
+                loop {
+                    match dec.next().await {
+                        None => return ReqEnd::Ok(out),
+                        Some(Err(e)) => return ReqEnd::Err(format!("{e}")),
+                        Some(Ok(c)) => {
+                            n += 1;
+                            out.extend_from_slice(&c);
+                            if n > max_chunks {
+                                return ReqEnd::StepBound(n);
+                            }
+                            if out.len() > max_bytes {
+                                return ReqEnd::TooMuch(out.len());
+                            }
+                        }
+                    }
+                }
+            }
+            m => {
+                let uri = if m == "bytes" { "/bytes" } else { "/payload" };
+                let mut rq = test::TestRequest::post().uri(uri);
+                if let Ok(v) = HeaderValue::from_bytes(case.label.as_bytes()) {
+                    rq = rq.insert_header((header::CONTENT_ENCODING, v));
+                }
+                let boxed: actix_http::BoxedPayloadStream = Box::pin(src);
+                let (rq, _) = rq.to_request().replace_payload(Payload::Stream { payload: boxed });
+                match call(rq).await {
+                    Ok((200, body)) => ReqEnd::Ok(body),
+                    Ok((st, body)) => ReqEnd::Err(format!("status {st}: {}", esc_short(&body, 80))),
+                    Err(e) => ReqEnd::Err(format!("harness: {e}")),
+                }
+            }
+        }
+    };
+    match tokio::time::timeout(WATCHDOG, fut).await {
+        Ok(r) => r,
+        Err(_) => ReqEnd::Watchdog,
+    }
+}
+
+struct ReqEnv {
+    call: ReqCall,
+    progress: Arc<AtomicU64>,
+    watchdogs: u64,
+}
+
+impl ReqEnv {
+    async fn new(progress: Arc<AtomicU64>) -> ReqEnv {
+        ReqEnv { call: erase_req_service(test::init_service(make_req_app!()).await), progress, watchdogs: 0 }
+    }
+}
+
+async fn run_req_case(env: &mut ReqEnv, case: &ReqCase, rep: &mut Reporter) -> bool {
+    rep.eval();
+    env.progress.fetch_add(1, SeqCst);
+    let orig = make_data(&case.data);
+    let comp = lib_encode(&case.coding, case.level, case.checksum, &orig);
+    let input = damaged_input(case, &comp);
+    if let Ok(dir) = std::env::var("AVMON_C13_DUMP") {
+        // debugging aid for replays: the exact bytes fed and expected
+        let _ = std::fs::write(format!("{dir}/input.bin"), &input);
+        let _ = std::fs::write(format!("{dir}/orig.bin"), &orig);
+    }
+    let log: Log = Rc::new(RefCell::new(SrcLog::default()));
+    let in_chunks = case.chunks.n_chunks(input.len());
+    let max_chunks = 2 * in_chunks + 16;
+    let max_bytes = if case.damage == "none" { orig.len() + 4096 } else { orig.len() * 16 + (4 << 20) };
+    let src_fails = matches!(case.chunks.err_at, Some(k) if k <= in_chunks);
+    let run = exec_req(&env.call, case, Bytes::from(input.clone()), log.clone(), max_chunks, max_bytes);
+    let end = match AssertUnwindSafe(run).catch_unwind().await {
+        Ok(e) => e,
+        Err(p) => {
+            let m = panic_text(p);
+            rep.violation("panic", &format!("request {} {}", case.coding, panic_site(&m)), &format!("panic while decoding {:?}: {m}", case), case.replay());
+            env.call = erase_req_service(test::init_service(make_req_app!()).await);
+            return false;
+        }
+    };
+    let log = log.borrow();
+    rep.count(&format!("req-mode:{}", case.mode), 1);
+    rep.count(&format!("req-coding:{}", case.coding), 1);
+    rep.count("req_chunks_in_place", (log.chunks - log.huge) as u64);
+    rep.count("req_chunks_blocking_path", log.huge as u64);
+    rep.max("req_compressed_bytes", comp.len() as u64);
+    let shape = format!(
+        "{}/{}/{}/{}{}{}",
+        case.mode,
+        case.coding,
+        size_class(input.len()),
+        if log.chunks > log.huge { "s" } else { "" },
+        if log.huge > 0 { "H" } else { "" },
+        if log.pendings > 0 { "p" } else { "" }
+    );
+    let mut failure: Option<Fail> = None;
+    let outcome: String;
+    match (&end, case.damage.as_str()) {
+        (ReqEnd::Watchdog, _) => {
+            env.watchdogs += 1;
+            rep.count("watchdog_fired", 1);
+            return true;
+        }
+        (ReqEnd::StepBound(n), _) => {
+            outcome = "step-bound".into();
+            failure = Some(fail("terminates/step-bound", format!("request {shape}"), format!("decoder produced {n} chunks for {in_chunks} input chunks and has not ended")));
+        }
+        (ReqEnd::TooMuch(n), "none") => {
+            outcome = "too-much".into();
+            failure = Some(fail("request/mismatch", shape.clone(), format!("decoder produced {n} bytes for an original of {} and has not ended", orig.len())));
+        }
+        (ReqEnd::TooMuch(_), _) => {
+            rep.count("req:damaged-input-expands", 1);
+            outcome = "expands".into();
+        }
+        (ReqEnd::Ok(x), _) if src_fails => {
+            outcome = "src-error-swallowed".into();
+            failure = Some(fail(
+                "request/source-error-swallowed",
+                shape.clone(),
+                format!("the transport failed at chunk {:?} but the decoded body ended cleanly with {} bytes", case.chunks.err_at, x.len()),
+            ));
+        }
+        (ReqEnd::Err(_), _) if src_fails => {
+            rep.count("req:source-error-propagated", 1);
+            outcome = "src-error".into();
+        }
+        (ReqEnd::Ok(x), "none") => {
+            if *x == orig {
+                outcome = "ok".into();
+            } else {
+                let k = x.iter().zip(orig.iter()).take_while(|(a, b)| a == b).count();
+                outcome = "mismatch".into();
+                failure = Some(fail("request/mismatch", shape.clone(), format!("decoded body has {} bytes, the original {}; first difference at {k}", x.len(), orig.len())));
+            }
+        }
+        (ReqEnd::Err(e), "none") => {
+            outcome = "rejected".into();
+            failure = Some(fail("request/rejected-valid", shape.clone(), format!("a valid {} body of {} bytes ({} original) was refused: {e}", case.coding, comp.len(), orig.len())));
+        }
+        (ReqEnd::Err(_), d) => {
+            rep.count(&format!("req:{d}:error"), 1);
+            outcome = "error".into();
+        }
+        (ReqEnd::Ok(x), "truncate") => {
+            if *x == orig {
+                // only the trailer (checksum / size) was cut off: everything was delivered
+                rep.count("req:truncate:complete-without-trailer", 1);
+                outcome = "ok-complete".into();
+            } else {
+                // Observed, not judged: the statement is about bodies *sent with* a supported
+                // coding being delivered decoded and equal; what happens to a body that is cut off
+                // mid-stream is outside it (see DESIGN.md section 11).
+                outcome = "short-success".into();
+                let _ = orig.starts_with(x);
+                rep.count("req:truncate:short-body-delivered-as-success(observed, not judged)", 1);
+            }
+        }
+        (ReqEnd::Ok(x), _) => {
+            if *x == orig {
+                rep.count("req:flip:harmless", 1);
+                outcome = "ok-harmless".into();
+            } else {
+                match lib_decode(&case.coding, &input, max_bytes) {
+                    Ok((y, _)) if y == *x => {
+                        rep.count("req:flip:undetectable-by-codec", 1);
+                        outcome = "ok-as-library".into();
+                    }
+                    // brotli has no integrity check and the library's verdict on a corrupt stream
+                    // depends on how much input it sees at once (probed: the same bytes are `Ok` in
+                    // one piece and `Invalid Data` in 4 KiB pieces); accept what the library itself
+                    // decodes under any of the feedings tried, including the case's own chunking
+                    _ if case.coding == "br" && br_variants(&input, &case.chunks).iter().any(|y| y == x) => {
+                        rep.count("req:flip:br-library-feeding-dependent", 1);
+                        outcome = "ok-as-library".into();
+                    }
+                    other => {
+                        outcome = "corrupt-accepted".into();
+                        let _ = other;
+                        rep.count("req:flip:corrupt-body-delivered-as-success(observed, not judged)", 1);
+                    }
+                }
+            }
+        }
+    }
+    rep.count(&format!("req-outcome:{}:{outcome}", case.damage), 1);
+    rep.sig(&format!("req|{shape}|{}|{}|{outcome}", case.damage, if src_fails { "srcerr" } else { "" }));
+    if rep.get("evaluations") % 1499 == 1 {
+        rep.sample(&format!("req:{}", case.phase), json!({"case": case, "compressed_len": comp.len(), "outcome": outcome}));
+    }
+    match failure {
+        None => true,
+        Some(f) => {
+            rep.violation(f.class, &f.sig, &f.detail, case.replay());
+            false
+        }
+    }
+}
+
+// ------------------------------------------------------------------------------------------------
+// generators
+// ------------------------------------------------------------------------------------------------
+
+const AE_CODINGS: &[&str] = &[
+    "gzip", "gzip", "br", "br", "deflate", "zstd", "identity", "identity", "*", "*", "compress", "x-foo", "snappy", "GZIP", "Gzip", "BR", "Identity",
+    "IDENTITY", "ZSTD", "Deflate", "x-gzip2", "gzip2",
+];
+const Q_ZERO: &[&str] = &["0", "0.", "0.0", "0.00", "0.000"];
+const Q_POS: &[&str] = &["1", "1.", "1.0", "1.00", "1.000", "0.5", "0.001", "0.9", "0.999", "0.01", "0.100", "0.8", "0.05"];
+const Q_BAD: &[&str] = &["1.001", "2", "0.5555", ".5", "abc", "-1", "", "1.0000", "0,5", "1e0", "0.5;x=1", " 0.5", "+0.5", "NaN", "inf"];
+const SEMI: &[&str] = &[";", ";", "; ", " ;", " ; ", ";\t", "\t;"];
+const COMMA: &[&str] = &[",", ", ", ", ", " ,", " , ", ",,", ", ,", ",\t"];
+
+/// A random Accept-Encoding header (0..3 field lines) from the RFC 7231 §5.3.4 grammar plus a
+/// small share of malformed elements.  Lines are returned in `esc` rendering.
+fn gen_ae(r: &mut Rng) -> Vec<String> {
+    if r.chance(1, 14) {
+        return vec![];
+    }
+    if r.chance(1, 30) {
+        return vec![String::new()];
+    }
+    let nlines = if r.chance(4, 5) { 1 } else { r.range(2, 3) };
+    let mut lines = vec![];
+    for _ in 0..nlines {
+        let n = if r.chance(1, 12) { 0 } else { r.range(1, 4) };
+        let mut l: Vec<u8> = vec![];
+        if r.chance(1, 15) {
+            l.extend_from_slice(r.pick(COMMA).trim_start().as_bytes());
+        }
+        for i in 0..n {
+            if i > 0 {
+                l.extend_from_slice(r.pick(COMMA).as_bytes());
+            }
+            l.extend_from_slice(r.pick(AE_CODINGS).as_bytes());
+            let k = r.below(100);
+            let (q, bad): (Option<&str>, bool) = match k {
+                0..=39 => (None, false),
+                40..=66 => (Some(*r.pick(Q_ZERO)), false),
+                67..=96 => (Some(*r.pick(Q_POS)), false),
+                _ => (Some(*r.pick(Q_BAD)), true),
+            };
+            let _ = bad;
+            if let Some(q) = q {
+                l.extend_from_slice(r.pick(SEMI).as_bytes());
+                l.extend_from_slice(if r.chance(1, 8) { b"Q=" } else { b"q=" });
+                l.extend_from_slice(q.as_bytes());
+            }
+        }
+        if r.chance(1, 40) {
+            // an element that is no token at all, or obs-text
+            let junk: [&[u8]; 7] = [b", gzip br", b", =", b", \"gzip\"", b", gz\xe9p", b", ;q=1", b", gzip;", b", (gzip)"];
+            l.extend_from_slice(junk[r.below(junk.len())]);
+        }
+        // field values never start or end with whitespace once parsed; keep them trimmed so the svc
+        // and h1 modes see the same value
+        let t = String::from_utf8_lossy(&l).trim_matches(|c| c == ' ' || c == '\t').to_string();
+        let tb: Vec<u8> = if l.iter().any(|b| *b >= 0x80) { l.clone() } else { t.into_bytes() };
+        lines.push(esc(&tb));
+    }
+    lines
+}
+
+fn force_ae(coding: &str, variant: usize) -> Vec<String> {
+    if coding == "identity" {
+        return match variant % 3 {
+            0 => vec![],
+            1 => vec!["identity".into()],
+            _ => vec!["gzip;q=0, identity;q=0.5, *;q=0".into()],
+        };
+    }
+    match variant % 4 {
+        0 => vec![coding.to_string()],
+        1 => vec![format!("{coding};q=0.5, identity;q=0")],
+        2 => vec![format!("*;q=0, {coding}")],
+        _ => vec![format!("{};q=0.9", coding.to_ascii_uppercase()), "x-none, identity;q=0.1".into()],
+    }
+}
+
+fn text_case(phase: &str, ae: Vec<String>) -> RespCase {
+    RespCase {
+        phase: phase.into(),
+        mode: "svc".into(),
+        http10: false,
+        ae,
+        status: 200,
+        ctype: None,
+        cenc: None,
+        body: "bytes".into(),
+        data: DataSpec { kind: "text".into(), len: 600, seed: 1 },
+        chunks: ChunkSpec::one(),
+    }
+}
+
+const GRID_SIZES: &[usize] = &[0, 1, 1023, 1024, 1025, 2047, 2048, 2049, 2050, 65536, 1 << 20];
+
+fn grid_chunkings(size: usize) -> Vec<ChunkSpec> {
+    let mut v = vec![
+        ChunkSpec::one(),
+        ChunkSpec::fixed(1023),
+        ChunkSpec::fixed(1024),
+        ChunkSpec::fixed(1025),
+        ChunkSpec::fixed(2048),
+        ChunkSpec::pat(&[1, 1024, 1023, 2048, 5, 4096]),
+        ChunkSpec::fixed(65536),
+        ChunkSpec::pat(&[0, 1500, 0, 0, 700]),
+        ChunkSpec { pattern: vec![1024], pend_every: 2, err_at: None },
+        ChunkSpec { pattern: vec![512, 3000], pend_every: 3, err_at: None },
+    ];
+    if size <= 65536 {
+        v.push(ChunkSpec::fixed(7));
+    }
+    v
+}
+
+fn rand_pattern(r: &mut Rng, allow_empty: bool) -> Vec<usize> {
+    let n = r.range(1, 6);
+    (0..n)
+        .map(|_| match r.below(12) {
+            0 if allow_empty => 0,
+            0 | 1 => 1,
+            2 | 3 => r.range(2, 1022),
+            4 => 1023,
+            5 => 1024,
+            6 => 1025,
+            7 => r.range(2047, 2050),
+            8 | 9 => r.range(1026, 9000),
+            _ => r.range(9000, 70000),
+        })
+        .collect()
+}
+
+fn rand_size(r: &mut Rng, big_ok: bool) -> usize {
+    match r.below(20) {
+        0 => 0,
+        1 => 1,
+        2..=6 => *r.pick(&[1023usize, 1024, 1025, 2047, 2048, 2049, 2050, 4095, 4096, 8191, 8192, 8193]),
+        7..=11 => r.range(2, 5000),
+        12..=16 => r.range(5000, 200_000),
+        17 | 18 => 65536 + r.range(0, 2),
+        _ => {
+            if big_ok {
+                (1 << 20) + r.range(0, 3000)
+            } else {
+                r.range(100_000, 300_000)
+            }
+        }
+    }
+}
+
+const CTYPES: &[Option<&str>] = &[
+    None,
+    None,
+    Some("text/plain"),
+    Some("text/html; charset=utf-8"),
+    Some("application/json"),
+    Some("image/png"),
+    Some("image/svg+xml"),
+    Some("IMAGE/JPEG"),
+    Some("video/mp4"),
+    Some("application/octet-stream"),
+    Some("not a mime"),
+];
+
+// ------------------------------------------------------------------------------------------------
+// phases
+// ------------------------------------------------------------------------------------------------
+
+struct Runner<'a> {
+    ctx: &'a Ctx,
+    env: Env,
+    renv: ReqEnv,
+    cut: bool,
+}
+
+impl<'a> Runner<'a> {
+    /// sub-sampling stride of the enumerated grids (sanitizer layers run a slice of them)
+    fn stride(&self) -> u64 {
+        if self.ctx.is_miri() {
+            1
+        } else {
+            (100 / self.ctx.scale_pct.clamp(1, 100)).max(1)
+        }
+    }
+    /// is enumeration index `idx` this shard's, and inside this layer's slice?
+    fn take(&self, idx: u64) -> bool {
+        self.ctx.mine(idx) && (idx / self.ctx.nshards) % self.stride() == 0
+    }
+    /// only the full-scale layers may claim (or disclaim) that a finite space was completed
+    fn declare(&self, rep: &mut Reporter, what: &str, complete: bool) {
+        if self.stride() == 1 && !self.ctx.is_miri() {
+            rep.exhaustive(what, complete);
+        }
+    }
+    fn stop(&mut self) -> bool {
+        if self.ctx.out_of_time() {
+            self.cut = true;
+        }
+        self.cut
+    }
+}
+
+async fn phase_neg_enum(rn: &mut Runner<'_>, rep: &mut Reporter) {
+    let codings = ["gzip", "br", "deflate", "zstd", "identity", "*", "x-unk"];
+    let qs = ["", ";q=0", ";q=0.001", ";q=0.5"];
+    let pal: Vec<String> = codings.iter().flat_map(|c| qs.iter().map(move |q| format!("{c}{q}"))).collect();
+    let small: Vec<String> = codings.iter().flat_map(|c| ["", ";q=0"].iter().map(move |q| format!("{c}{q}"))).collect();
+    let miri = rn.ctx.is_miri();
+    let mut idx = 0u64;
+    let mut complete = true;
+    let maxlen = if miri { 1 } else { 3 };
+    for len in 0..=maxlen {
+        let total = pal.len().pow(len as u32);
+        for k in 0..total {
+            idx += 1;
+            if !rn.take(idx) {
+                continue;
+            }
+            if rn.stop() {
+                complete = false;
+                break;
+            }
+            let mut x = k;
+            let mut parts = vec![];
+            for _ in 0..len {
+                parts.push(pal[x % pal.len()].clone());
+                x /= pal.len();
+            }
+            let ae = if len == 0 { vec![String::new()] } else { vec![parts.join(", ")] };
+            run_resp_case(&mut rn.env, &text_case("neg-enum", ae), rep).await;
+        }
+    }
+    rn.declare(rep, "accept-encoding sequences of <=3 elements over 7 codings x 4 weights", complete);
+    if rn.ctx.thorough() && !miri {
+        let mut complete = true;
+        let total = small.len().pow(4);
+        for k in 0..total {
+            idx += 1;
+            if !rn.take(idx) {
+                continue;
+            }
+            if rn.stop() {
+                complete = false;
+                break;
+            }
+            let mut x = k;
+            let mut parts = vec![];
+            for _ in 0..4 {
+                parts.push(small[x % small.len()].clone());
+                x /= small.len();
+            }
+            // split over two field lines for half of them
+            let ae = if k % 2 == 0 { vec![parts.join(",")] } else { vec![parts[..2].join(", "), parts[2..].join(" ,")] };
+            run_resp_case(&mut rn.env, &text_case("neg-enum", ae), rep).await;
+        }
+        rn.declare(rep, "accept-encoding sequences of 4 elements over 7 codings x {q=1,q=0}", complete);
+    }
+}
+
+fn q_text(q: u32, style: u32) -> String {
+    if q >= 1000 {
+        return ["1", "1.0", "1.000"][(style % 3) as usize].to_string();
+    }
+    let full = format!("0.{:03}", q);
+    match style % 3 {
+        0 => full,
+        1 => {
+            let t = full.trim_end_matches('0');
+            if t.ends_with('.') {
+                "0".to_string()
+            } else {
+                t.to_string()
+            }
+        }
+        _ => {
+            if q == 0 {
+                "0.0".into()
+            } else {
+                full
+            }
+        }
+    }
+}
+
+async fn phase_neg_q(rn: &mut Runner<'_>, rep: &mut Reporter) {
+    let mut idx = 0u64;
+    let mut complete = true;
+    let step = if rn.ctx.is_miri() { 500 } else { 1 };
+    'outer: for which in 0..4 {
+        for q in (0..=1000u32).step_by(step) {
+            idx += 1;
+            if !rn.take(idx) {
+                continue;
+            }
+            if rn.stop() {
+                complete = false;
+                break 'outer;
+            }
+            let qt = q_text(q, q / 7 + which);
+            let ae = match which {
+                0 => format!("gzip;q={qt}, identity;q=0"),
+                1 => format!("identity;q={qt}, gzip;q=0"),
+                2 => format!("*;q={qt}, identity;q=0"),
+                _ => format!("br;q={qt}, *;q=0"),
+            };
+            run_resp_case(&mut rn.env, &text_case("neg-q", vec![ae]), rep).await;
+        }
+    }
+    rn.declare(rep, "all 1001 qvalues x 4 header shapes", complete);
+}
+
+async fn phase_neg_rand(rn: &mut Runner<'_>, rep: &mut Reporter) {
+    let n = if rn.ctx.is_miri() { 6 } else { rn.ctx.share(100_000, 6_000_000) / if rn.stride() > 1 { 10 } else { 1 } };
+    for k in 0..n {
+        if rn.stop() {
+            break;
+        }
+        let mut r = Rng::derive(rn.ctx.seed, 0xc13_01, k * rn.ctx.nshards + rn.ctx.shard);
+        let mut c = text_case("neg-rand", gen_ae(&mut r));
+        c.status = *r.pick(&[200u16, 200, 200, 201, 404, 500]);
+        c.data.len = *r.pick(&[1usize, 40, 600, 1500]);
+        c.data.seed = r.below(4) as u64;
+        if r.chance(1, 6) {
+            c.ctype = r.pick(CTYPES).map(|s| s.to_string());
+        }
+        if r.chance(1, 10) {
+            c.body = "stream".into();
+            c.chunks = ChunkSpec::fixed(*r.pick(&[100usize, 1024]));
+        }
+        run_resp_case(&mut rn.env, &c, rep).await;
+    }
+}
+
+async fn phase_body_grid(rn: &mut Runner<'_>, rep: &mut Reporter) {
+    let mut codings: Vec<&str> = CODINGS.to_vec();
+    codings.push("identity");
+    let kinds = ["bytes", "vec", "stream", "sized", "custom-stream", "custom-sized"];
+    let datas: &[&str] = if rn.ctx.thorough() { &["text", "random", "zeros", "mixed"] } else { &["text", "random"] };
+    let mut idx = 0u64;
+    let mut complete = true;
+    'outer: for &size in GRID_SIZES {
+        for (ci, coding) in codings.iter().enumerate() {
+            for kind in kinds {
+                let chunkings = if matches!(kind, "bytes" | "vec") { vec![ChunkSpec::one()] } else { grid_chunkings(size) };
+                for (ki, ch) in chunkings.iter().enumerate() {
+                    for dk in datas {
+                        idx += 1;
+                        if !rn.take(idx) {
+                            continue;
+                        }
+                        if rn.stop() {
+                            complete = false;
+                            break 'outer;
+                        }
+                        let c = RespCase {
+                            phase: "body-grid".into(),
+                            mode: "svc".into(),
+                            http10: false,
+                            ae: force_ae(coding, ci + ki + size),
+                            status: 200,
+                            ctype: if ki % 3 == 0 { Some("text/plain".into()) } else { None },
+                            cenc: None,
+                            body: kind.into(),
+                            data: DataSpec { kind: dk.to_string(), len: size, seed: (size + ki) as u64 },
+                            chunks: ch.clone(),
+                        };
+                        run_resp_case(&mut rn.env, &c, rep).await;
+                    }
+                }
+            }
+        }
+    }
+    rn.declare(rep, "body grid: 11 threshold sizes x codings x 6 body kinds x 11 chunkings x data kinds", complete);
+}
+
+async fn phase_skip(rn: &mut Runner<'_>, rep: &mut Reporter) {
+    let statuses = [101u16, 204, 206, 200, 404];
+    let cencs: [Option<&str>; 6] = [None, Some("gzip"), Some("br"), Some("identity"), Some("x-custom"), Some("deflate")];
+    let ctypes: [Option<&str>; 7] =
+        [None, Some("text/plain"), Some("image/png"), Some("image/svg+xml"), Some("video/mp4"), Some("application/json"), Some("not a mime")];
+    let bodies: [(&str, usize); 6] = [("bytes", 0), ("none", 0), ("bytes", 600), ("stream", 3000), ("sized", 0), ("custom-stream", 0)];
+    let aes: [Vec<String>; 5] =
+        [vec!["gzip".into()], vec!["br, identity;q=0".into()], vec![], vec!["*".into()], vec!["deflate;q=0.5, gzip;q=0".into()]];
+    let mut idx = 0u64;
+    let mut complete = true;
+    'outer: for st in statuses {
+        for ce in cencs {
+            for ct in ctypes {
+                for (bk, len) in bodies {
+                    for ae in &aes {
+                        idx += 1;
+                        if !rn.take(idx) {
+                            continue;
+                        }
+                        if rn.stop() {
+                            complete = false;
+                            break 'outer;
+                        }
+                        let c = RespCase {
+                            phase: "skip".into(),
+                            mode: "svc".into(),
+                            http10: false,
+                            ae: ae.clone(),
+                            status: st,
+                            ctype: ct.map(|s| s.to_string()),
+                            cenc: ce.map(|s| s.to_string()),
+                            body: bk.into(),
+                            data: DataSpec { kind: "text".into(), len, seed: 3 },
+                            chunks: ChunkSpec::fixed(1024),
+                        };
+                        run_resp_case(&mut rn.env, &c, rep).await;
+                    }
+                }
+            }
+        }
+    }
+    rn.declare(rep, "skip rules: 5 statuses x 6 handler labels x 7 content types x 6 bodies x 5 headers", complete);
+}
+
+async fn phase_wire(rn: &mut Runner<'_>, rep: &mut Reporter) {
+    let mut codings: Vec<&str> = CODINGS.to_vec();
+    codings.push("identity");
+    let sizes = [0usize, 1, 1023, 1024, 1025, 2049, 65536];
+    let kinds = ["bytes", "stream", "sized", "nochunk", "custom-sized"];
+    let chunkings = [ChunkSpec::one(), ChunkSpec::fixed(1024), ChunkSpec::pat(&[700, 3000])];
+    let mut idx = 0u64;
+    let mut complete = true;
+    'outer: for size in sizes {
+        for (ci, coding) in codings.iter().enumerate() {
+            for kind in kinds {
+                for (ki, ch) in chunkings.iter().enumerate() {
+                    for http10 in [false, true] {
+                        for st in [200u16, 206] {
+                            if st == 206 && (ki != 1 || size == 0) {
+                                continue;
+                            }
+                            idx += 1;
+                            if !rn.take(idx) {
+                                continue;
+                            }
+                            if rn.stop() {
+                                complete = false;
+                                break 'outer;
+                            }
+                            let c = RespCase {
+                                phase: "wire".into(),
+                                mode: "h1".into(),
+                                http10,
+                                ae: force_ae(coding, ci + ki),
+                                status: st,
+                                ctype: None,
+                                cenc: None,
+                                body: kind.into(),
+                                data: DataSpec { kind: if (size + ki) % 2 == 0 { "text" } else { "random" }.into(), len: size, seed: size as u64 },
+                                chunks: ch.clone(),
+                            };
+                            run_resp_case(&mut rn.env, &c, rep).await;
+                        }
+                    }
+                }
+            }
+        }
+    }
+    rn.declare(rep, "wire grid: 7 sizes x codings x 5 body kinds x 3 chunkings x HTTP/1.0+1.1", complete);
+}
+
+async fn phase_body_rand(rn: &mut Runner<'_>, rep: &mut Reporter) {
+    let n = if rn.ctx.is_miri() { 4 } else { rn.ctx.share(16_000, 900_000) };
+    let mut codings: Vec<&str> = CODINGS.to_vec();
+    codings.push("identity");
+    for k in 0..n {
+        if rn.stop() {
+            break;
+        }
+        let mut r = Rng::derive(rn.ctx.seed, 0xc13_02, k * rn.ctx.nshards + rn.ctx.shard);
+        let wire = !rn.ctx.is_miri() && r.chance(1, 5);
+        let kind = *r.pick(&["bytes", "vec", "stream", "stream", "sized", "nochunk", "custom-stream", "custom-sized", "none"]);
+        let big = r.chance(1, 3);
+        let mut len = if rn.ctx.is_miri() { r.range(0, 3000) } else { rand_size(&mut r, big) };
+        if kind == "none" {
+            len = 0;
+        }
+        let mut chunks = ChunkSpec { pattern: rand_pattern(&mut r, true), pend_every: *r.pick(&[0usize, 0, 0, 1, 2, 5]), err_at: None };
+        // keep the number of chunks bounded
+        if chunks.n_chunks(len) > 6000 {
+            chunks.pattern.push(len / 50 + 1);
+        }
+        let streamed = !matches!(kind, "none" | "bytes" | "vec");
+        if streamed && !wire && r.chance(1, 12) {
+            chunks.err_at = Some(r.below(chunks.n_chunks(len) + 1));
+        }
+        let status = if wire {
+            *r.pick(&[200u16, 200, 200, 201, 404, 206, 500])
+        } else {
+            *r.pick(&[200u16, 200, 200, 200, 200, 201, 404, 500, 206, 204, 101])
+        };
+        let ae = if r.chance(3, 5) { { let c: &str = codings[r.below(codings.len())]; force_ae(c, r.below(8)) } } else { gen_ae(&mut r) };
+        let c = RespCase {
+            phase: "body-rand".into(),
+            mode: if wire { "h1" } else { "svc" }.into(),
+            http10: wire && r.chance(1, 3),
+            ae,
+            status,
+            ctype: r.pick(CTYPES).map(|s| s.to_string()),
+            cenc: if r.chance(1, 12) { Some(r.pick(&["gzip", "br", "identity", "x-custom"]).to_string()) } else { None },
+            body: kind.into(),
+            data: DataSpec { kind: r.pick(&["text", "text", "random", "zeros", "mixed"]).to_string(), len, seed: r.below(1000) as u64 },
+            chunks,
+        };
+        run_resp_case(&mut rn.env, &c, rep).await;
+    }
+}
+
+fn label_variant(coding: &str, v: usize) -> String {
+    match v % 4 {
+        0 | 1 => coding.to_string(),
+        2 => coding.to_ascii_uppercase(),
+        _ => {
+            let mut s = coding.to_string();
+            if let Some(f) = s.get_mut(0..1) {
+                f.make_ascii_uppercase();
+            }
+            s
+        }
+    }
+}
+
+async fn phase_req_trunc(rn: &mut Runner<'_>, rep: &mut Reporter) {
+    let mut idx = 0u64;
+    let mut complete = true;
+    let datas = [DataSpec { kind: "text".into(), len: 400, seed: 5 }, DataSpec { kind: "random".into(), len: 150, seed: 6 }];
+    let miri = rn.ctx.is_miri();
+    'outer: for coding in CODINGS {
+        for data in &datas {
+            for level in [1u32, 6, 0] {
+                for checksum in [false, true] {
+                    if checksum && (*coding != "zstd" || level != 1) {
+                        continue;
+                    }
+                    let comp = lib_encode(coding, level, checksum, &make_data(data));
+                    for at in 1..comp.len() {
+                        for (ki, ch) in [ChunkSpec::one(), ChunkSpec::fixed(1), ChunkSpec::fixed(13)].iter().enumerate() {
+                            idx += 1;
+                            if !rn.take(idx) || (miri && idx % 97 != 0) {
+                                continue;
+                            }
+                            if rn.stop() {
+                                complete = false;
+                                break 'outer;
+                            }
+                            let c = ReqCase {
+                                phase: "req-trunc".into(),
+                                mode: ["direct", "bytes", "payload"][(ki + at) % 3].into(),
+                                coding: coding.to_string(),
+                                label: coding.to_string(),
+                                level,
+                                checksum,
+                                data: data.clone(),
+                                chunks: ch.clone(),
+                                damage: "truncate".into(),
+                                at,
+                                bit: 0,
+                            };
+                            run_req_case(&mut rn.renv, &c, rep).await;
+                        }
+                    }
+                }
+            }
+        }
+    }
+    rn.declare(rep, "request bodies cut at every byte offset: codings x 2 bodies x 3 levels x 3 chunkings", complete);
+}
+
+async fn phase_req_grid(rn: &mut Runner<'_>, rep: &mut Reporter) {
+    let sizes = [0usize, 1, 1023, 1024, 2047, 2048, 2049, 2050, 4097, 65536, 1 << 20];
+    let chunkings = [
+        ChunkSpec::one(),
+        ChunkSpec::fixed(1),
+        ChunkSpec::fixed(2048),
+        ChunkSpec::fixed(2049),
+        ChunkSpec::fixed(2050),
+        ChunkSpec::pat(&[100, 5000, 2049, 1, 2048]),
+        ChunkSpec::fixed(8192),
+        ChunkSpec { pattern: vec![2049], pend_every: 2, err_at: None },
+        ChunkSpec { pattern: vec![0, 700, 0, 3000], pend_every: 3, err_at: None },
+    ];
+    let modes = ["direct", "headers", "bytes", "payload"];
+    let mut idx = 0u64;
+    let mut complete = true;
+    'outer: for size in sizes {
+        for coding in CODINGS {
+            for dk in ["text", "random"] {
+                let level = (size as u32 + dk.len() as u32) % 10;
+                let data = DataSpec { kind: dk.into(), len: size, seed: size as u64 + 11 };
+                let clen = lib_encode(coding, level, false, &make_data(&data)).len();
+                for (ki, ch) in chunkings.iter().enumerate() {
+                    if ch.n_chunks(clen) > 20_000 {
+                        continue;
+                    }
+                    for (mi, mode) in modes.iter().enumerate() {
+                        idx += 1;
+                        if !rn.take(idx) {
+                            continue;
+                        }
+                        if rn.stop() {
+                            complete = false;
+                            break 'outer;
+                        }
+                        let c = ReqCase {
+                            phase: "req-grid".into(),
+                            mode: mode.to_string(),
+                            coding: coding.to_string(),
+                            label: label_variant(coding, ki + mi),
+                            level,
+                            checksum: ki % 2 == 1,
+                            data: data.clone(),
+                            chunks: ch.clone(),
+                            damage: "none".into(),
+                            at: 0,
+                            bit: 0,
+                        };
+                        run_req_case(&mut rn.renv, &c, rep).await;
+                    }
+                }
+            }
+        }
+    }
+    rn.declare(rep, "request grid: 11 sizes x codings x 2 data kinds x 9 chunkings x 4 entry points", complete);
+}
+
+async fn phase_req_rand(rn: &mut Runner<'_>, rep: &mut Reporter) {
+    let n = if rn.ctx.is_miri() { 6 } else { rn.ctx.share(24_000, 1_400_000) };
+    for k in 0..n {
+        if rn.stop() {
+            break;
+        }
+        let mut r = Rng::derive(rn.ctx.seed, 0xc13_03, k * rn.ctx.nshards + rn.ctx.shard);
+        let coding = *r.pick(CODINGS);
+        let big = r.chance(1, 4);
+        let len = if rn.ctx.is_miri() { r.range(0, 3000) } else { rand_size(&mut r, big) };
+        let data = DataSpec { kind: r.pick(&["text", "random", "random", "zeros", "mixed"]).to_string(), len, seed: r.below(1000) as u64 };
+        let level = r.below(10) as u32;
+        let checksum = r.chance(1, 2);
+        let clen = lib_encode(coding, level, checksum, &make_data(&data)).len();
+        let mut chunks = ChunkSpec { pattern: rand_pattern(&mut r, true), pend_every: *r.pick(&[0usize, 0, 0, 1, 2, 5]), err_at: None };
+        if chunks.n_chunks(clen) > 6000 {
+            chunks.pattern.push(clen / 50 + 1);
+        }
+        let damage = *r.pick(&["none", "none", "none", "truncate", "truncate", "flip", "flip"]);
+        if damage == "none" && r.chance(1, 10) {
+            chunks.err_at = Some(r.below(chunks.n_chunks(clen) + 1));
+        }
+        let at = match damage {
+            "truncate" => {
+                if r.chance(1, 2) {
+                    clen.saturating_sub(r.range(1, 12)).max(1).min(clen.saturating_sub(1)).max(1)
+                } else {
+                    r.range(1, clen.max(2) - 1)
+                }
+            }
+            _ => r.below(clen.max(1)),
+        };
+        let c = ReqCase {
+            phase: "req-rand".into(),
+            mode: r.pick(&["direct", "headers", "bytes", "payload"]).to_string(),
+            coding: coding.to_string(),
+            label: label_variant(coding, r.below(4)),
+            level,
+            checksum,
+            data,
+            chunks,
+            damage: damage.into(),
+            at,
+            bit: r.below(8) as u8,
+        };
+        if c.damage == "truncate" && c.at >= clen {
+            continue;
+        }
+        run_req_case(&mut rn.renv, &c, rep).await;
+    }
+}
+
+/// Miri: a handful of cases that cross the in-place / blocking-pool boundary of the encoder and
+/// the decoder (the `spawn_blocking` hand-off moves the codec state to another thread and back).
+async fn phase_miri(rn: &mut Runner<'_>, rep: &mut Reporter) {
+    let mut idx = 0u64;
+    for coding in CODINGS {
+        for (kind, ch) in [("stream", ChunkSpec::pat(&[100, 1024, 5, 1500])), ("bytes", ChunkSpec::one()), ("custom-sized", ChunkSpec::fixed(1024))] {
+            idx += 1;
+            if !rn.ctx.mine(idx) || rn.stop() {
+                continue;
+            }
+            let c = RespCase {
+                phase: "miri".into(),
+                mode: "svc".into(),
+                http10: false,
+                ae: force_ae(coding, idx as usize),
+                status: 200,
+                ctype: None,
+                cenc: None,
+                body: kind.into(),
+                data: DataSpec { kind: "text".into(), len: 2700, seed: idx },
+                chunks: ch,
+            };
+            run_resp_case(&mut rn.env, &c, rep).await;
+        }
+        for (mode, ch) in [("direct", ChunkSpec::pat(&[10, 2049, 3])), ("bytes", ChunkSpec::fixed(2100))] {
+            idx += 1;
+            if !rn.ctx.mine(idx) || rn.stop() {
+                continue;
+            }
+            let c = ReqCase {
+                phase: "miri".into(),
+                mode: mode.into(),
+                coding: coding.to_string(),
+                label: coding.to_string(),
+                level: 1,
+                checksum: false,
+                data: DataSpec { kind: "random".into(), len: 4500, seed: idx },
+                chunks: ch,
+                damage: "none".into(),
+                at: 0,
+                bit: 0,
+            };
+            run_req_case(&mut rn.renv, &c, rep).await;
+        }
+    }
+}
+
+// ------------------------------------------------------------------------------------------------
+// entry point
+// ------------------------------------------------------------------------------------------------
+
+pub fn run(ctx: &Ctx, rep: &mut Reporter) {
+    if let Err(e) = negotiate::self_check() {
+        rep.inconclusive(&format!("reference negotiation model failed its RFC 7231 examples: {e}"));
+        return;
+    }
+    // codec libraries round-trip (the oracle's own tools)
+    for c in CODINGS {
+        let d = make_data(&DataSpec { kind: "mixed".into(), len: 5000, seed: 9 });
+        match lib_decode(c, &lib_encode(c, 3, true, &d), d.len() + 10) {
+            Ok((x, _)) if x == d => {}
+            other => {
+                rep.inconclusive(&format!("library {c} round trip failed: {:?}", other.map(|o| o.0.len())));
+                return;
+            }
+        }
+    }
+    let progress = Arc::new(AtomicU64::new(0));
+    let finished = Arc::new(AtomicBool::new(false));
+    if !ctx.is_miri() {
+        // backstop for a hard hang (busy loop inside the library): the per-case tokio timeout
+        // cannot fire then.  Exit code 3 ⇒ the driver reports the shard as crashed ⇒ inconclusive.
+        let (p, f) = (progress.clone(), finished.clone());
+        std::thread::spawn(move || {
+            let mut last = (p.load(SeqCst), Instant::now());
+            loop {
+                std::thread::sleep(Duration::from_millis(500));
+                if f.load(SeqCst) {
+                    return;
+                }
+                let now = p.load(SeqCst);
+                if now != last.0 {
+                    last = (now, Instant::now());
+                } else if last.1.elapsed() > Duration::from_secs(240) {
+                    eprintln!("C13 watchdog: no case completed for 240 s (after {now} cases) - giving up, inconclusive");
+                    std::process::exit(3);
+                }
+            }
+        });
+    }
+    let watchdogs = real_time_system(async {
+        let env = Env::new(progress.clone(), !ctx.is_miri()).await;
+        let renv = ReqEnv::new(progress.clone()).await;
+        let mut rn = Runner { ctx, env, renv, cut: false };
+        if let Some(rp) = &ctx.replay {
+            match rp["t"].as_str() {
+                Some("req") => match serde_json::from_value::<ReqCase>(rp["case"].clone()) {
+                    Ok(c) => {
+                        run_req_case(&mut rn.renv, &c, rep).await;
+                    }
+                    Err(e) => rep.inconclusive(&format!("unreadable replay: {e}")),
+                },
+                _ => match serde_json::from_value::<RespCase>(rp["case"].clone()) {
+                    Ok(c) => {
+                        if c.mode == "h1" && rn.env.h1.is_none() {
+                            rn.env.h1 = Some(h1_stack(rn.env.sh.clone()).await);
+                        }
+                        run_resp_case(&mut rn.env, &c, rep).await;
+                    }
+                    Err(e) => rep.inconclusive(&format!("unreadable replay: {e}")),
+                },
+            }
+            rep.sig("replay-a");
+            rep.sig("replay-b");
+        } else if ctx.is_miri() {
+            phase_miri(&mut rn, rep).await;
+            phase_neg_enum(&mut rn, rep).await;
+            phase_neg_q(&mut rn, rep).await;
+            phase_neg_rand(&mut rn, rep).await;
+            phase_body_rand(&mut rn, rep).await;
+            phase_req_rand(&mut rn, rep).await;
+        } else if rn.stride() > 1 {
+            // sanitizer layer (ASan): a slice of every grid, codec-heavy phases first — the
+            // negotiation logic is safe Rust and comes last in case the budget runs out
+            phase_body_grid(&mut rn, rep).await;
+            phase_wire(&mut rn, rep).await;
+            phase_req_grid(&mut rn, rep).await;
+            phase_req_trunc(&mut rn, rep).await;
+            phase_body_rand(&mut rn, rep).await;
+            phase_req_rand(&mut rn, rep).await;
+            phase_skip(&mut rn, rep).await;
+            phase_neg_q(&mut rn, rep).await;
+            phase_neg_enum(&mut rn, rep).await;
+            phase_neg_rand(&mut rn, rep).await;
+        } else {
+            phase_neg_enum(&mut rn, rep).await;
+            phase_neg_q(&mut rn, rep).await;
+            phase_skip(&mut rn, rep).await;
+            phase_body_grid(&mut rn, rep).await;
+            phase_wire(&mut rn, rep).await;
+            phase_req_trunc(&mut rn, rep).await;
+            phase_req_grid(&mut rn, rep).await;
+            phase_neg_rand(&mut rn, rep).await;
+            phase_body_rand(&mut rn, rep).await;
+            phase_req_rand(&mut rn, rep).await;
+        }
+        if rn.cut {
+            rep.count("budget_cut", 1);
+        }
+        rn.env.watchdogs + rn.renv.watchdogs
+    });
+    finished.store(true, SeqCst);
+    if watchdogs > 0 {
+        rep.inconclusive(&format!("{watchdogs} case(s) did not finish within the {} s wall-clock watchdog", WATCHDOG.as_secs()));
+    }
 }
